@@ -208,7 +208,13 @@ class LiteralEvaluator:
 	def on_func_call(self, node: defs.FuncCall, calls: Evaluator.Value, arguments: list[Evaluator.Value]) -> Evaluator.Value:
 		# スカラー型のキャストのみ許可
 		org_calls = node.calls.tokens
-		if org_calls == 'int':
+		if org_calls == 'int' and len(arguments) == 2 and isinstance(arguments[0], str) and isinstance(arguments[1], int) and not isinstance(arguments[1], bool):
+			# 基数指定: int('ff', 16)
+			return int(arguments[0][1:-1], arguments[1])
+		elif len(arguments) != 1:
+			# XXX 引数を無視して評価すると値が変わるため、それ以外の複数引数は非対応
+			raise Errors.OperationNotAllowed(node, calls, arguments)
+		elif org_calls == 'int':
 			if isinstance(arguments[0], str):
 				return int(arguments[0][1:-1])
 			else:
